@@ -50,7 +50,11 @@ MAILBOXES = [b'INBOX', b'Other', b'inbox', b'"Other"', b'Missing', b'""',
              b'"a\\"b"', b'x/y', b'x/', b'/', b'%', b'*', b'"&"',
              b'\xc3\xa9', b'"\xe9"', b'{3+}\r\nabc', b'{0+}\r\n', b'~peter',
              b'#news', b'&AAA-', b'&,,,-', b'&Jjo!', b'"&Jjo"',
-             b'a' * 300, b'&' + b'A' * 200 + b'-']
+             b'a' * 300, b'&' + b'A' * 200 + b'-',
+             # text that looks like a literal marker but is not one
+             b'"{64+}"', b'"{4096+}"', b'"x {9+}"', b'"{7}"',
+             b'"{999999999+}"', b'"{2+}\\r\\n"', b'{3+}\r\nabc',
+             b'{5+}\r\n{9+} ']
 SETS = [b'1', b'1:*', b'*', b'2:1', b'1,2,3', b'*:*', b'0', b'1:0', b'4294967295',
         b'4294967296', b'99999999999999999999', b'1:', b':1', b'1,,2', b'$',
         b'1:*,1:*,1:*', b'-1', b'1.5', b'*:4294967295', b'1:*:2']
@@ -84,8 +88,10 @@ def gen_command(rng: random.Random, state: str) -> bytes:
         lambda: b'ID ("a")', lambda: b'ID ("' + b'k' * 40 + b'" "v")']
     nonauth = [
         lambda: b'LOGIN ' + rng.choice([b'user', b'"user"', b'{4+}\r\nuser',
-                                        b'nobody', b'\xff', b'""']) + b' ' +
+                                        b'nobody', b'\xff', b'""',
+                                        b'"{64+}"', b'"{9+}"']) + b' ' +
         rng.choice([b'pass', b'"pass"', b'wrong', b'""', b'{0+}\r\n',
+                    b'{4+}\r\npass',
                     b'\xc3\xa9', b'"' + b'p' * 60000 + b'"']),
         lambda: b'AUTHENTICATE ' + rng.choice([b'PLAIN', b'LOGIN', b'NOPE',
                                                b'plain', b'X' * 100]),
@@ -203,9 +209,9 @@ def balanced(line: bytes) -> bool:
     pos = 0
     import re
     marker = re.compile(rb'\{(\d+)\+?\}\r?\n')
-    # every '{' must belong to a marker that ends a physical line, and no
-    # literal may contain '{' (pymap frames on the accumulated buffer, so
-    # literal data ending in '{4+' merges with a following '}' line)
+    # a marker is a marker only at the end of a physical line (RFC 7888:
+    # literal = "{" number ["+"] "}" CRLF *CHAR8); "{n+}" anywhere else,
+    # e.g. inside a quoted string, is ordinary text
     while True:
         nl = line.find(b'\n', pos)
         if nl < 0:
@@ -220,16 +226,10 @@ def balanced(line: bytes) -> bool:
             n = int(m.group(1))
             if n > len(line):
                 return False
-            if phys.count(b'{') != 1:
-                return False
-            if b'{' in line[nl + 1:nl + 1 + n]:
-                return False
             pos = nl + 1 + n
             if pos > len(line):
                 return False
             continue
-        if b'{' in phys:
-            return False
         pos = nl + 1
         if pos >= len(line):
             return True
